@@ -379,6 +379,71 @@ func c16Worker(args []string) int {
 				}
 			}
 		}
+		// ... and for sources that are not gofmt-canonical (runs of several empty lines, which the decorator
+		// folds into one): decorated again and again by ONE decorator, and by several goroutines with a
+		// decorator each that share one file set - where the file lands in the file set is no input
+		{
+			mk := func(i int) string {
+				return fmt.Sprintf("package p\n\n\n\nfunc f%d() {\n\tg()\n\n\n\th() // t\n\n\n\n\n\ti()\n\n\n}\n\n\n\n// c\n\n\nvar v%d = %d\n", i, i, i)
+			}
+			alone := func(src string) string {
+				f, err := decorator.Parse(src)
+				if err != nil {
+					return "error: " + err.Error()
+				}
+				var buf bytes.Buffer
+				if err := decorator.Fprint(&buf, f); err != nil {
+					return "error: " + err.Error()
+				}
+				return buf.String()
+			}
+			d := decorator.NewDecorator(token.NewFileSet())
+			for k := 0; k < 4; k++ {
+				f, err := d.Parse(mk(0))
+				if err != nil {
+					fmt.Println("DIFF repeat-decorator: error", err)
+					break
+				}
+				var buf bytes.Buffer
+				decorator.Fprint(&buf, f)
+				if want := alone(mk(0)); buf.String() != want {
+					fmt.Printf("DIFF repeat-decorator call %d: one Decorator asked again about the same source gives\n%s\nthe call made alone\n%s\n", k+1, buf.String(), want)
+					break
+				}
+			}
+			shared := token.NewFileSet()
+			var swg sync.WaitGroup
+			var smu sync.Mutex
+			reported := false
+			for g := 0; g < 8; g++ {
+				swg.Add(1)
+				go func(g int) {
+					defer swg.Done()
+					for k := 0; k < 6; k++ {
+						src := mk(g*10 + k)
+						f, err := decorator.NewDecorator(shared).Parse(src)
+						got := ""
+						if err != nil {
+							got = "error: " + err.Error()
+						} else {
+							var buf bytes.Buffer
+							decorator.Fprint(&buf, f)
+							got = buf.String()
+						}
+						if want := alone(src); got != want {
+							smu.Lock()
+							if !reported {
+								reported = true
+								fmt.Printf("DIFF shared-fileset goroutine %d call %d: a decorator of its own on a shared file set gives\n%s\nthe call made alone\n%s\n", g, k, got, want)
+							}
+							smu.Unlock()
+							return
+						}
+					}
+				}(g)
+			}
+			swg.Wait()
+		}
 		// ... and with Restorer.Extras on a file whose scope still knows declarations that were removed from
 		// the tree (objects are kept in maps): the same bytes every time, and the same as without Extras
 		{
